@@ -7,6 +7,14 @@ from .state import *
 from .contract import *
 
 
+def ret_name(ex):
+    """name of the local returned by the function's last statement (accumulators are addressed by role, not by name)"""
+    last = ex.fn.node.body[-1]
+    if isinstance(last, ast.Return) and isinstance(last.value, ast.Name):
+        return last.value.id
+    return None
+
+
 def _assigned_names(body):
     out = set()
     for s in body:
@@ -94,8 +102,7 @@ def _iter_source(ex, it: SV, st: State):
 def exec_for(ex, s: ast.For, st: State) -> list[State]:
     if s.orelse:
         raise Unsupported('for/else')
-    ordinal = ex.loop_ordinal
-    ex.loop_ordinal += 1
+    ordinal = ex.loop_ids[id(s)]
     it = ex.ev(s.iter, st)
     src = _iter_source(ex, it, st)
     if src[0] == 'static':
@@ -145,17 +152,22 @@ def exec_for(ex, s: ast.For, st: State) -> list[State]:
         ex.bind_target(s.target, el, stx)
         return ex.exec_block(s.body, stx)
 
+    outer = ex.loop_ctx_stack[-1] if ex.loop_ctx_stack else None
     saved_ord = ex.loop_ordinal
-    mod_arr, mod_alloc = _probe(ex, run_body_from, st)
+    ex.loop_ctx_stack.append(LCtx(ex.h0, st.h, ex.args, ex.ghosts, h_entry, ex.fresh(z3.IntSort(), 'pi'),
+                                  ex.fresh(BagSort, 'pdone'), cont, st.locals, outer,
+                                  extra={'kind': kind, 'ret_name': ret_name(ex)}))
+    try:
+        mod_arr, mod_alloc = _probe(ex, run_body_from, st)
+    finally:
+        ex.loop_ctx_stack.pop()
     ex.loop_ordinal = saved_ord
     mod_locals = _assigned_names(s.body) | _assigned_names([ast.Expr(s.target)])
     mod_locals |= {n.id for n in ast.walk(s.target) if isinstance(n, ast.Name)}
 
-    outer = ex.loop_ctx_stack[-1] if ex.loop_ctx_stack else None
-
     def lctx(stx: State, i, done):
         return LCtx(ex.h0, stx.h, ex.args, ex.ghosts, h_entry, i, done, cont, stx.locals, outer,
-                    extra={'kind': kind})
+                    extra={'kind': kind, 'ret_name': ret_name(ex)})
 
     def auto_inv(stx: State, i):
         out = [('index', z3.And(0 <= i, i <= length(stx.h)))]
@@ -218,8 +230,7 @@ def exec_for(ex, s: ast.For, st: State) -> list[State]:
 def exec_while(ex, s: ast.While, st: State) -> list[State]:
     if s.orelse:
         raise Unsupported('while/else')
-    ordinal = ex.loop_ordinal
-    ex.loop_ordinal += 1
+    ordinal = ex.loop_ids[id(s)]
     spec = ex.contract.loops.get(ordinal)
     if spec is None:
         raise Unsupported('loop %d has no invariant in the contract' % ordinal)
@@ -239,7 +250,7 @@ def exec_while(ex, s: ast.While, st: State) -> list[State]:
     outer = ex.loop_ctx_stack[-1] if ex.loop_ctx_stack else None
 
     def lctx(stx):
-        return LCtx(ex.h0, stx.h, ex.args, ex.ghosts, h_entry, None, None, None, stx.locals, outer)
+        return LCtx(ex.h0, stx.h, ex.args, ex.ghosts, h_entry, None, None, None, stx.locals, outer, extra={'ret_name': ret_name(ex)})
 
     for (nm, f) in spec.inv(lctx(st)):
         ex.oblige('%s.inv.init.%s' % (tag, nm), st, f, 'inv.init')
